@@ -271,6 +271,10 @@ def cases(tier):
             }
     for fam, docs in COINCIDENCES:
         yield {"k": "c", "family": fam, "tier": tier}
+    # structured block strings (lines with mixed space / tab indentation) as argument value and as description
+    for hid in ("argument", "type-description", "field-description"):
+        for first in T.BLOCK_FIRST:
+            yield {"k": "hb", "host": hid, "first": first, "lines": 2 if tier == "quick" else 3, "tier": tier}
     nm = len(mixed_documents())
     for lo in range(0, nm, MIXED_CHUNK):
         yield {"k": "m", "lo": lo, "hi": min(nm, lo + MIXED_CHUNK), "tier": tier}
@@ -602,6 +606,20 @@ def check_case(case, st):
                 break
         st.n("string_tokens_in_hosts", cnt)
         st.mx("token_body_len:" + ("block" if block else "quoted"), case["len"])
+        return out
+
+    if case["k"] == "hb":
+        cnt = 0
+        for k in range(2, case["lines"] + 1):
+            for body in T.block_family(case["first"], k, "\n", between=[None, " \t"], trail=["", "T  "]):
+                if RS.scan_block(body) is None:
+                    continue
+                cnt += 1
+                text, flags = host_text(case["host"], True, body)
+                for ind in ((cnt + j) % len(INDENTS) for j in (0, 3)):
+                    for cls, detail in roundtrip(text, flags, INDENTS[ind], st):
+                        emit(cls, {"k": "h", "host": case["host"], "block": True, "body": body, "indent": ind}, detail)
+        st.n("structured_block_tokens_in_hosts", cnt)
         return out
 
     if case["k"] == "c":
